@@ -108,8 +108,11 @@ fn magnitude(x: &In, candle: bool) -> f64 {
 }
 
 /// late-join comparison of two real replicas: exact for selections / indices / signals, allowance linear in t for arithmetic
-fn agree(name: &str, a: &Out, b: &Out, n: f64, t: f64, m: f64) -> Result<(), String> {
-	let tol = 2048.0 * U * (n + t) * m * if matches!(name, "Integral" | "ADI" | "LinearVolatility") { n.max(1.0) } else { 1.0 };
+fn agree(name: &str, a: &Out, b: &Out, n: f64, t: f64, m: f64, extra: f64) -> Result<(), String> {
+	// `extra`: twice the bound of the tracked reference at this step when there is one (both replicas lie within it);
+	// indicators built on StDev: the allowance lives in variance space, its square root in the output
+	let sd = if name == "BollingerBands" { 10.0 * m * (2048.0 * U * (n + t)).sqrt() } else { 0.0 };
+	let tol = extra + sd + 2048.0 * U * (n + t) * m * if matches!(name, "Integral" | "ADI" | "LinearVolatility") { n.max(1.0) } else { 1.0 };
 	let close = |x: f64, y: f64| -> bool { x == y || (x.is_nan() && y.is_nan()) || (x - y).abs() <= tol || (x - y).abs() <= 1e-9 * x.abs().max(y.abs()) };
 	match a.tag {
 		T_FLOAT => {
@@ -179,8 +182,8 @@ impl Check for C07 {
 	fn runs(&self, tier: Tier) -> u64 {
 		let slots = (WINDOWED.len() + RECURSIVE.len() + IND_FINITE.len() + IND_RECURSIVE.len()) as u64;
 		match tier {
-			Tier::Quick => slots * 2,
-			Tier::Thorough => slots * 5,
+			Tier::Quick => slots * 3,
+			Tier::Thorough => slots * 6,
 		}
 	}
 	fn generate(&self, root: &Rng, i: u64, tier: Tier) -> Case {
@@ -389,10 +392,14 @@ impl Check for C07 {
 					late_ready = true;
 				}
 				let mut undefined_step = false;
+				let mut ref_bound = 0.0f64;
 				if let Some(r) = late_ref.as_mut() {
 					let want = r.next(x);
 					if let RefOut::Arith(tv) | RefOut::Var(tv) = &want {
 						undefined_step = tv.und();
+						if !tv.und() {
+							ref_bound = 2.0 * tv.e;
+						}
 					}
 					if in_window {
 						if late_ready {
@@ -418,14 +425,14 @@ impl Check for C07 {
 							if in_window && undefined_step {
 								stats.exempt += 1;
 							} else if in_window {
-								match agree(base, &out, &o2, nf, t as f64, m_hist) {
+								match agree(base, &out, &o2, nf, t as f64, m_hist, ref_bound) {
 									Ok(()) => stats.checked += 1,
 									Err(_) if {
 										// conditioning test: a fresh replica primed with the same window perturbed by a few ulp
 										let from = a.saturating_sub(depth);
 										let pert: Vec<In> = stream[from..=t].iter().map(crate::c08::perturb).collect();
 										match meng::run_a(&f, &pert) {
-											Ok(op) => agree(base, &o2, op.last().unwrap(), nf, t as f64, m_hist).is_err(),
+											Ok(op) => agree(base, &o2, op.last().unwrap(), nf, t as f64, m_hist, ref_bound).is_err(),
 											Err(_) => true,
 										}
 									} =>
